@@ -34,7 +34,8 @@ reg("C16",
          "file names of generated blocks (ids with dashes before/inside the last 16 bytes, non-ASCII, empty; heights up to "
          "2^64-1) and mutated / random / truncated names; one-block stores with several blocks per height, neighbouring "
          "heights, repeated ids, a damaged file, fetched by (num, id), (num-1, id), (num+1, id), longer / truncated / foreign "
-         "ids; merged bundles fetched by number; non-trivial = at least one block / fault / byte; distinct by file bytes + "
+         "ids; merged bundles fetched by every stored number, the numbers next to it, 99, 100 and a number of the next "
+         "bundle (not-found exactly when no block of the bundle has the number); non-trivial = at least one block / fault / byte; distinct by file bytes + "
          "fault selection, by name, by store content",
     trusted_base=["protobuf (google.golang.org/protobuf: proto.Marshal / Unmarshal of pbbstream.Block and BlockMeta, anypb, "
                   "timestamppb) enters the theorems as Section variables penc/pdec/pdec_meta with the hypotheses codec_ok: "
